@@ -279,7 +279,31 @@ def run_listing(case):
 _host = {}
 
 
-def host():
+TWIN = {"A.G1": "A.C1", "A.C2": "A.G2", "A.U3^A": "A.A3^A", "B.5MC4": "B.PSU4"}
+
+
+def host(twin=False):
+    """The host structure; its twin has the same chains, numbers and insertion codes but other residue names (what a second input file looks like
+    to anything that remembers residues by position)."""
+    if twin:
+        if "t" not in _host:
+            from rnapolis.parser import read_3d_structure
+
+            def atom(serial, name, resn, chain, num, icode, x):
+                return "ATOM  %5d %-4s %3s %1s%4d%1s   %8.3f%8.3f%8.3f  1.00  0.00           %s" % (serial, name if len(name) == 4 else " " + name, resn, chain, num, icode, x, 0.0, 0.0, name[0])
+
+            lines = []
+            k = 1
+            for resn, chain, num, icode in (("C", "A", 1, " "), ("G", "A", 2, " "), ("A", "A", 3, "A"), ("PSU", "B", 4, " ")):
+                for an in ("P", "C1'", "N1"):
+                    lines.append(atom(k, an, resn, chain, num, icode, float(k)))
+                    k += 1
+            path = os.path.join(scratch_dir(), "host-twin.pdb")
+            with open(path, "w") as f:
+                f.write("\n".join(lines) + "\nEND\n")
+            with open(path) as f:
+                _host["t"] = read_3d_structure(f, None)
+        return _host["t"]
     if "s" not in _host:
         from rnapolis.parser import read_3d_structure
 
@@ -301,14 +325,21 @@ def host():
     return _host["s"]
 
 
-def run_dssr(case):
+def run_dssr(case, twin=False):
     from rnapolis.adapter import parse_dssr_output
 
     out = []
-    s = host()
-    known = set(_host["names"])
-    assert {"A.G1", "A.C2", "A.U3^A", "B.5MC4"} <= known, known
-    d = case["dssr"]
+    s = host(twin)
+    if twin:
+        known = set(TWIN.values())
+        tr = lambda n: n if n is None else ":".join(n.split(":")[:-1] + [TWIN.get(n.split(":")[-1], n.split(":")[-1])])
+        d = dict(pairs=[[tr(p[0]), tr(p[1]), p[2]] for p in case["dssr"]["pairs"]], stacks=[None if m is None else [tr(x) for x in m] for m in case["dssr"]["stacks"]])
+    else:
+        host()
+        known = {"A.G1", "A.C2", "A.U3^A", "B.5MC4"}
+        if not known <= set(_host["names"]):
+            out.append(viol("host-names", "full names of the host residues are not the expected ones", sorted(_host["names"]), sorted(known)))
+        d = case["dssr"]
     params = dict(pairs=[dict((k, v) for k, v in (("nt1", p[0]), ("nt2", p[1]), ("LW", p[2])) if v is not None or k == "LW") for p in d["pairs"]],
                   stacks=[({"nts_long": ",".join(m)} if m is not None else {}) for m in d["stacks"]])
     wrap = case["wrap"]
@@ -364,6 +395,11 @@ def run_dssr(case):
             out.append(viol("dssr-stacks-differ", "imported DSSR stackings differ", got_stacks, want_stacks))
     if bi.baseRiboseInteractions or bi.basePhosphateInteractions or bi.otherInteractions:
         out.append(viol("dssr-invented-kinds", "DSSR import produced other interaction kinds", None, None))
+    if not twin and wrap == "plain" and len(d["pairs"]) == 1:
+        # the same document, names translated, against the twin structure - in the same process, alternating with the host
+        r2 = run_dssr(case, twin=True)
+        for v in r2["violations"]:
+            out.append(dict(v, signature=v["signature"] + ":twin-structure", message="(twin structure: same positions, other residue names) " + v["message"]))
     return dict(nontrivial=bool(want_pairs or want_stacks), outcome="dssr pairs=%d stacks=%d" % (len(got_pairs), min(len(got_stacks), 3)), violations=out)
 
 
